@@ -41,7 +41,7 @@ static int_t attempt(vf_case *c, const vf_api *P, const vf_mat *A, const plan_t 
     if (pl->route == 0) {
         fact_run R; fact_do(P, A, &pl->opt, pl->mypc, work, lwork, pl->ilu, &R); info = R.info;
         if (R.have_LU && info >= 0 && info <= n && lwork != -1) {
-            if (structure_ok(P, &R.L, &R.U, n, n, pl->ilu, why, wl)) *structure_bad = 1; else *hash = hash_factors(P, &R.L, &R.U, R.perm_r, R.perm_c, n, n);
+            if (structure_ok(P, &R.L, &R.U, A->m, n, pl->ilu, why, wl)) *structure_bad = 1; else *hash = hash_factors(P, &R.L, &R.U, R.perm_r, R.perm_c, A->m, n);
             *expansions = R.stat.expansions;
         }
         fact_free(&R);
@@ -117,6 +117,10 @@ static void c08_run(vf_case *c)
         B.colptr[nn] = q; mat_free(&A); A = B; vf_tag(c, "fillbomb"); }
     plan_t pl; memset(&pl, 0, sizeof pl);
     pl.ilu = rng_bool(r, 0.3); pl.route = rng_bool(r, 0.5); gen_run_opts(r, &o, 1); pl.rowmajor = pl.route ? o.rowmajor : 0;
+    if (!pl.ilu && !pl.route && !fillbomb && rng_bool(r, 0.5)) {      /* ?gstrf called directly accepts m > n: the m-long work arrays at the tail of work[] */
+        gen_spec g2 = g; g2.m = g2.n + rng_int(r, 1, 1 + g2.n / 2); vf_mat A2; gen_matrix(r, P, &g2, &A2); mat_free(&A); A = A2; g = g2; vf_tag(c, "tall");
+        if (o.opt.ColPerm == MMD_AT_PLUS_A) o.opt.ColPerm = MMD_ATA;
+    }
     if (pl.ilu && !fillbomb && rng_bool(r, 0.4)) {
         /* incomplete factorization with structurally missing diagonal entries (still structurally nonsingular): columns whose L part
            comes out empty take ?gsitrf's fill-in path, which grows lusup on its own */
@@ -145,6 +149,7 @@ static void c08_run(vf_case *c)
     if (sprank(&A) < n) { vf_note(c, "structsing"); vf_tag(c, "structsing"); }
     vf_sig_u64(c, mat_pattern_hash(&A)); vf_sig_u64(c, (uint64_t)pl.route * 2 + (uint64_t)pl.ilu);
     int mode = (int)(c->index % 8);        /* 0-5 workspace sweep, 6 growth-failure enumeration, 7 size query */
+    if (A.m != A.n && mode == 7) mode = 0;    /* the size query belongs to the (square) drivers */
     /* reference under library allocation */
     uint64_t h0; int exp0, sbad; int_t info0 = attempt(c, P, &A, &pl, NULL, 0, &h0, &exp0, &sbad, why, sizeof why);
     int ok0 = pl.ilu ? (info0 >= 0 && info0 <= n + 1) : (info0 == 0 || info0 == n + 1);
@@ -176,7 +181,7 @@ static void c08_run(vf_case *c)
     }
     {   /* workspace sweep */
         vf_tag(c, "mode=sweep");
-        size_t G = generous_lwork(P, n, A.nnz); arena ar; arena_init(&ar, G);
+        size_t G = generous_lwork(P, A.m, A.nnz); arena ar; arena_init(&ar, G);
         /* find the smallest sufficient length on a 4-byte grid by bisection (monotone in practice; the sweep below does not rely on it) */
         size_t lo = 0, hi = G; int align4 = rng_bool(r, 0.5);
         for (int it = 0; it < 40 && hi - lo > 4; it++) {
